@@ -330,9 +330,11 @@ def run(case):
                     fails.append(f"mapping of wrong length gave {err or 'a wrapper'}")
                 raise StopIteration
             # shape agreement on shared axes
-            pshape = [x for m in members for x in m.pixel_shape]
+            # (a member without a declared shape takes no part in the shape comparison: the compound then has none)
+            shapeless = any(m.pixel_shape is None for m in members)
+            pshape = [x for m in members for x in (m.pixel_shape if m.pixel_shape is not None else [None] * m.pixel_n_dim)]
             gap = any(i not in mapping for i in range(max(mapping) + 1))
-            disagree = gap or any(pshape[i] != pshape[mapping.index(mapping[i])] for i in range(total))
+            disagree = gap or (not shapeless and any(pshape[i] != pshape[mapping.index(mapping[i])] for i in range(total)))
             if not disagree and all(m.pixel_bounds is not None for m in members):
                 pb = [tuple(b) for m in members for b in m.pixel_bounds]
                 if any(pb[i] != pb[mapping.index(mapping[i])] for i in range(total)):
@@ -543,6 +545,10 @@ def _members(case):
         for mi, m in enumerate(members):
             m._bounds = None if (mode == "some_none" and mi == len(members) - 1) else [tuple(x) for x in flat[k:k + m.pixel_n_dim]]
             k += m.pixel_n_dim
+        if case["wseed"] % 4 == 3 and all(i in mapping for i in range(max(mapping) + 1)):
+            # a member that declares bounds but no array shape (a gWCS with a bounding box, a FITS WCS with bounds only):
+            # the bounds of shared axes are checked all the same
+            members[0]._shape = None
     return members
 
 
